@@ -344,3 +344,55 @@ def run(chk, repo, tier):
                 chk.violation(W5, f.module.rel, f.qualname, unparse(c)[:120],
                               'the static input "results" is interpreted by dask as the key of the sink task',
                               line=c.lineno, witness='the task receives the workflow result (or a cycle error)')
+    run_more(chk, repo)
+
+
+def run_more(chk, repo):
+    from sa.cfg import CFG
+    W6 = chk.rule('W6', 'call_workflow gives the sink its unique key before the graph is optimised (fused task names are derived '
+                        'from the keys)', floor=1)
+    W7 = chk.rule('W7', 'WorkflowBuilder.add_task adds the task as a node on every path (also for an empty predecessor list)',
+                  floor=1)
+    cm = repo.module('pharmpy.workflows.dispatchers.local_dask.call')
+    f = cm.functions.get('call_workflow')
+    if f is None:
+        raise AnalysisError('call_workflow not found')
+    cfg = CFG(f.node)
+    renames = [n for n in cfg.nodes.values() if n.kind == 'stmt' and isinstance(n.ast, ast.Assign)
+               and isinstance(n.ast.targets[0], ast.Subscript) and isinstance(n.ast.value, ast.Call)
+               and isinstance(n.ast.value.func, ast.Attribute) and n.ast.value.func.attr == 'pop'
+               and n.ast.value.args and isinstance(n.ast.value.args[0], ast.Constant) and n.ast.value.args[0].value == 'results']
+    opts = [n for n in cfg.nodes.values() if n.kind == 'stmt' and n.ast is not None
+            and any(isinstance(c, ast.Call) and (dotted(c.func) or '').startswith('optimize_task_graph') for c in ast.walk(n.ast))]
+    if not renames or not opts:
+        raise AnalysisError(f'W6: rename of the sink ({len(renames)}) or optimisation call ({len(opts)}) not found')
+    for o in opts:
+        oc = next(c for c in ast.walk(o.ast) if isinstance(c, ast.Call) and (dotted(c.func) or '').startswith('optimize_task_graph'))
+        graph_arg = unparse(oc.args[-1])
+        ok = any(unparse(r.ast.targets[0].value) == graph_arg and cfg.dominates(r.id, o.id) for r in renames)
+        chk.instance(W6, f'`{renames[0].text()[:60]}` dominates `{o.text()[:60]}` and renames the graph that is optimised: {ok}')
+        if not ok:
+            chk.violation(W6, cm.rel, 'call_workflow', f'{o.text()[:70]} ... {renames[0].text()[:70]}',
+                          'the graph is optimised while its sink is still called `results`: fused tasks of two sub-workflows '
+                          'with the same task names get the same key, and the scheduler reuses the first computation for the '
+                          'second', line=o.line,
+                          witness='three parallel callers of call_workflow with the same linear sub-workflow and different static '
+                                  'inputs: all get the first caller\'s result')
+    wm = repo.module('pharmpy.workflows.workflow')
+    wb = wm.classes.get('WorkflowBuilder')
+    at = wb.methods.get('add_task') if wb else None
+    if at is None:
+        raise AnalysisError('WorkflowBuilder.add_task not found')
+    cfg = CFG(at.node)
+    tparam = at.params[1] if at.params and at.params[0] == 'self' else at.params[0]
+    adds = {n.id for n in cfg.nodes.values() if n.kind == 'stmt' and n.ast is not None
+            and any(isinstance(c, ast.Call) and isinstance(c.func, ast.Attribute) and c.func.attr == 'add_node'
+                    and c.args and unparse(c.args[0]) == tparam for c in ast.walk(n.ast))}
+    ok = bool(adds) and cfg.exit not in cfg.reachable(cfg.entry, avoid=adds, labels_excluded=('exc', 'fexc'))
+    chk.instance(W7, f'add_task: every path passes add_node({tparam}): {ok}')
+    if not ok:
+        p = cfg.path(cfg.entry, cfg.exit, avoid=adds, labels_excluded=('exc', 'fexc'))
+        chk.violation(W7, wm.rel, at.qualname, f'path without add_node({tparam})',
+                      'a task added with an empty predecessor list is not entered as a node: it appears later (when first used '
+                      'as a predecessor) at another position, or never', line=at.node.lineno, path=cfg.describe(p or [])[-6:],
+                      witness='base[], alt[], refit[alt], compare[base, refit]: compare receives (refit, base)')
